@@ -428,6 +428,22 @@ func (l *queue) Advance() error {
 	return nil
 }
 
+// advanceSegment drops the head segment when every block in it has been consumed and
+// a later segment exists. Unlike Advance it never moves past a block, so it is safe to
+// call after Current reported io.EOF even if a block has been appended since.
+func (l *queue) advanceSegment() error {
+	l.mu.Lock()
+	defer l.mu.Unlock()
+	if l.head == nil {
+		return ErrNotOpen
+	}
+
+	if l.head.empty() {
+		return l.trimHead()
+	}
+	return nil
+}
+
 func (l *queue) trimHead() error {
 	if len(l.segments) > 1 {
 		l.segments = l.segments[1:]
